@@ -48,6 +48,10 @@ var suite = flag.String("suite", "c06", "c06|c07|c08")
 // transcript on stdout)
 var childSession = flag.Bool("child-session", false, "internal: child process of the c08 cross-process experiment")
 
+// internal: run the real uci.Driver on stdin/stdout (engine process of the C07 UCI sessions: a panic
+// of the driver's search goroutine must not take the harness down)
+var childUCI = flag.Bool("child-uci", false, "internal: engine process of the c07 UCI sessions")
+
 // ---------------------------------------------------------------------------------------------
 // roots
 
@@ -1261,8 +1265,19 @@ type pvSample struct {
 
 // checkC07 asserts the C07 clauses on one run; returns the variations for the Lean spec sample.
 func (e *env) checkC07(j *job, oc outcome, ops []string) (samples [][]move.Move, nontrivial bool) {
+	return e.checkC07Into(j, oc, ops, nil)
+}
+
+// checkC07Into asserts the C07 clauses on one search; the violations go to sink when it is given,
+// to the result otherwise.
+func (e *env) checkC07Into(j *job, oc outcome, ops []string, sink *[]common.Mismatch) (samples [][]move.Move, nontrivial bool) {
 	fail := func(note, impl string) {
-		e.fail(common.Mismatch{Property: "C07", Kind: "failing-input", Ops: ops, Impl: impl, Note: note})
+		m := common.Mismatch{Property: "C07", Kind: "failing-input", Ops: ops, Impl: impl, Note: note}
+		if sink != nil {
+			*sink = append(*sink, m)
+			return
+		}
+		e.fail(m)
 	}
 	if oc.panicked != "" {
 		fail("search panicked: "+oc.panicked, "")
@@ -1367,7 +1382,7 @@ func (e *env) specCheckPV(rt *root, ms []move.Move) (bad int) {
 func (e *env) c07() {
 	e.collectRoots(e.c.Pick(48, 160))
 	e.rootHistogram()
-	e.r.Rule = "one run = search with info output captured (roots as in C06; depth 2..9; hard budgets, soft limits, stop at a random instant; TT fresh / warmed by earlier searches of a game on the same instance / 32000-byte table with heavy collisions); asserted: every `info … pv` line parses, each variation is legal by replay on a fresh board (and by the Lean rule book for a sample), depths strictly increase, node counts never decrease (abort notice included), returned move = head of the most recent non-empty variation, ponder legal after it; plus DEEP runs: trivial endings generated from the seed (contested K+P v K, locked pawn chains, K+R v K, K+Q v K, opposite-coloured bishops; both colours, either side to move) searched with a depth limit in 34..63 under a hard budget of 0.7-2.5 M nodes on 1/4/16 MiB tables, same assertions on every line, every line of >= 34 moves also checked by the Lean rule book; non-trivial = run with >= 2 reported variations of length >= 2; distinct by (root, limits, table state)"
+	e.r.Rule = "one run = search with info output captured (roots as in C06; depth 2..9; hard budgets, soft limits, stop at a random instant; TT fresh / warmed by earlier searches of a game on the same instance / 32000-byte table with heavy collisions); asserted: every `info … pv` line parses, each variation is legal by replay on a fresh board (and by the Lean rule book for a sample), depths strictly increase, node counts never decrease (abort notice included), returned move = head of the most recent non-empty variation, ponder legal after it; plus DEEP runs: trivial endings generated from the seed (contested K+P v K, locked pawn chains, K+R v K, K+Q v K, opposite-coloured bishops; both colours, either side to move) searched with a depth limit in 34..63 under a hard budget of 0.7-2.5 M nodes on 1/4/16 MiB tables, same assertions on every line, every line of >= 34 moves also checked by the Lean rule book; plus UCI sessions on the real uci.Driver: `position fen F moves …` / `position startpos moves …` with generated move lists containing promotions to all four pieces (pushes and captures, both colours), castling and en-passant captures, then `go depth d` / `go nodes n`; the expected root is obtained without the driver's text parser (own move encoder, words replayed by the Lean rule book from F and by the board API), the driver's board (`fen` command) must be that root, and every info variation, the bestmove and the ponder move must be legal lines from it (replay on the API board and by the rule book); non-trivial = run with >= 2 reported variations of length >= 2; distinct by (root, limits, table state)"
 	rng := e.c.Rng
 	type task struct {
 		jobs []*job // a sequence on ONE instance (game order): tables carried over
@@ -1586,7 +1601,548 @@ func (e *env) c07() {
 		sp := specSamples[len(specSamples)/2]
 		e.r.Sample(map[string]any{"root": sp.rt.key, "pv": movesUCI(sp.ms)}, 3)
 	}
+	e.c07uci()
 	e.pvModel()
+}
+
+// ---------------------------------------------------------------------------------------------
+// C07 through the REAL uci.Driver: roots given as text (`position fen F moves …` / `position
+// startpos moves …`) with move lists that contain promotions to all four pieces (both colours,
+// pushes and captures), castling and en-passant captures, then `go depth d` / `go nodes n`.
+// The expected root is computed without the driver's text parser: the harness encodes every move
+// itself (from, to, promotion piece -> 16-bit word), the Lean rule book (drv_board: fen, speclegal,
+// mkq, spec, fenout) replays the words from F, and the engine's board API replays the same words.
+// Every info variation, the bestmove and the ponder move must be legal lines from THAT root.
+
+func sqName(i int) string { return string([]byte{byte('a' + i%8), byte('1' + i/8)}) }
+
+// moveText renders a move word as UCI text (own encoder, not move.String).
+func moveText(m move.Move) string {
+	w := int(m)
+	s := sqName((w>>6)&63) + sqName(w&63)
+	if p := (w >> 12) & 7; p != 0 {
+		s += string(" pnbrqk"[p])
+	}
+	return s
+}
+
+// moveWord parses UCI move text into the 16-bit word (own decoder); ok=false on malformed text.
+func moveWord(s string) (move.Move, bool) {
+	if len(s) != 4 && len(s) != 5 {
+		return 0, false
+	}
+	sq := func(a, b byte) int {
+		if a < 'a' || a > 'h' || b < '1' || b > '8' {
+			return -1
+		}
+		return int(a-'a') + 8*int(b-'1')
+	}
+	f, t := sq(s[0], s[1]), sq(s[2], s[3])
+	if f < 0 || t < 0 {
+		return 0, false
+	}
+	w := t | f<<6
+	if len(s) == 5 {
+		p := strings.IndexByte("  nbrq", s[4])
+		if p < 2 {
+			return 0, false
+		}
+		w |= p << 12
+	}
+	return move.Move(w), true
+}
+
+// boardArray is the piece placement of a FEN as a 64-array (0 = empty).
+func boardArray(fen string) (a [64]byte) {
+	r, f := 7, 0
+	for _, c := range []byte(strings.Fields(fen)[0]) {
+		switch {
+		case c == '/':
+			r, f = r-1, 0
+		case c >= '1' && c <= '8':
+			f += int(c - '0')
+		default:
+			if r >= 0 && f < 8 {
+				a[r*8+f] = c
+			}
+			f++
+		}
+	}
+	return
+}
+
+// moveKind classifies a legal move on the position fen: "promo-q/r/b/n[-capture]", "castle", "ep", "double", "".
+func moveKind(fen string, m move.Move) string {
+	a := boardArray(fen)
+	w := int(m)
+	from, to := (w>>6)&63, w&63
+	p := a[from]
+	switch {
+	case (w>>12)&7 != 0:
+		k := "promo-" + string(" pnbrqk"[(w>>12)&7])
+		if a[to] != 0 {
+			k += "-capture"
+		}
+		return k
+	case (p == 'K' || p == 'k') && (from%8-to%8 == 2 || to%8-from%8 == 2):
+		return "castle"
+	case (p == 'P' || p == 'p') && from%8 != to%8 && a[to] == 0:
+		return "ep"
+	case (p == 'P' || p == 'p') && (from-to == 16 || to-from == 16):
+		return "double"
+	}
+	return ""
+}
+
+// specialStarts are start positions from which special moves are near: a small corpus and a
+// constructive sampler (castling set-ups, pawns one step from promotion with capture targets next
+// to the promotion square, pawn pairs one double push away from an en-passant capture).
+func (e *env) specialStarts(n int) []string {
+	rng := e.c.Rng
+	out := []string{
+		startFEN,
+		"r3k2r/1P4P1/8/8/8/8/1p4p1/R3K2R w KQkq - 0 1",
+		"4k3/P6P/8/8/8/8/p6p/4K3 b - - 0 1",
+		"4k3/2p1p1p1/8/1P1P1P2/1p1p1p2/8/2P1P1P1/4K3 w - - 0 1",
+		"8/P4pkp/6p1/3q4/8/8/5PPP/6K1 w - - 0 1",
+		"r3k2r/pppp1ppp/8/4p3/4P3/8/PPPP1PPP/R3K2R b KQkq - 0 1",
+	}
+	for tries := 0; len(out) < n && tries < 400*n; tries++ {
+		sq := map[int]byte{}
+		put := func(i int, p byte) bool {
+			if _, ok := sq[i]; ok || i < 0 || i > 63 {
+				return false
+			}
+			sq[i] = p
+			return true
+		}
+		rights := ""
+		if rng.IntN(3) != 0 {
+			put(4, 'K')
+			put(60, 'k')
+			for _, c := range []struct {
+				sq int
+				p  byte
+				r  string
+			}{{7, 'R', "K"}, {0, 'R', "Q"}, {63, 'r', "k"}, {56, 'r', "q"}} {
+				if rng.IntN(4) != 0 {
+					put(c.sq, c.p)
+					rights += c.r
+				}
+			}
+		} else {
+			put(rng.IntN(16), 'K')
+			put(48+rng.IntN(16), 'k')
+		}
+		if rights == "" {
+			rights = "-"
+		}
+		for f := 0; f < 8; f++ {
+			switch rng.IntN(7) {
+			case 0: // white pawn one step from promotion, maybe a capture target beside the promotion square
+				put(48+f, 'P')
+				if rng.IntN(2) == 0 {
+					put(56+f+1-2*rng.IntN(2), "nbrq"[rng.IntN(4)])
+				}
+			case 1:
+				put(8+f, 'p')
+				if rng.IntN(2) == 0 {
+					put(f+1-2*rng.IntN(2), "NBRQ"[rng.IntN(4)])
+				}
+			case 2: // en passant one double push away: white pawn on its 5th rank, black pawn at home on the next file
+				put(32+f, 'P')
+				if f < 7 {
+					put(48+f+1, 'p')
+				}
+			case 3:
+				put(24+f, 'p')
+				if f < 7 {
+					put(8+f+1, 'P')
+				}
+			case 4:
+				put(8+f, 'P')
+				put(48+f, 'p')
+			}
+		}
+		fen := strings.Replace(fenOf(sq, []string{"w", "b"}[rng.IntN(2)]), " - - 0 1", " "+rights+" - 0 1", 1)
+		rt := &root{fen: fen}
+		if !e.prepare(rt) || rt.final {
+			continue
+		}
+		out = append(out, fen)
+	}
+	return out
+}
+
+// procSession is a UCI session with the driver running in a child process of the harness binary.
+type procSession struct {
+	cmd   *exec.Cmd
+	in    io.WriteCloser
+	lines chan string
+	errb  *bytes.Buffer
+}
+
+func newProcSession() *procSession {
+	exe, err := os.Executable()
+	if err != nil {
+		panic("search harness: cannot find its own executable: " + err.Error())
+	}
+	p := &procSession{cmd: exec.Command(exe, "-child-uci"), lines: make(chan string, 4096), errb: &bytes.Buffer{}}
+	p.in, _ = p.cmd.StdinPipe()
+	out, _ := p.cmd.StdoutPipe()
+	p.cmd.Stderr = p.errb
+	if err := p.cmd.Start(); err != nil {
+		panic("search harness: cannot start the engine process: " + err.Error())
+	}
+	go func() {
+		sc := bufio.NewScanner(out)
+		sc.Buffer(make([]byte, 1<<20), 1<<20)
+		for sc.Scan() {
+			p.lines <- sc.Text()
+		}
+		close(p.lines)
+	}()
+	return p
+}
+
+func (p *procSession) send(line string) { io.WriteString(p.in, line+"\n") }
+
+// waitBest collects the output up to the bestmove line; ok=false when the process ended or timed out.
+func (p *procSession) waitBest(timeout time.Duration) (lines []string, best string, ok bool) {
+	t := time.NewTimer(timeout)
+	defer t.Stop()
+	for {
+		select {
+		case l, open := <-p.lines:
+			if !open {
+				return lines, "", false
+			}
+			if strings.HasPrefix(l, "bestmove") {
+				return lines, l, true
+			}
+			lines = append(lines, l)
+		case <-t.C:
+			return lines, "", false
+		}
+	}
+}
+
+func (p *procSession) close() {
+	p.send("quit")
+	p.in.Close()
+	done := make(chan struct{})
+	go func() { p.cmd.Wait(); close(done) }()
+	select {
+	case <-done:
+	case <-time.After(3 * time.Second):
+		p.cmd.Process.Kill()
+		<-done
+	}
+}
+
+type uciPoint struct {
+	k   int // number of game moves in the position command
+	cmd string
+}
+
+type uciGame struct {
+	fen    string
+	moves  []move.Move
+	kinds  []string
+	points []uciPoint
+	ponder bool
+	fails  []common.Mismatch
+	evals  int
+	lean   int
+}
+
+// positionCmd renders the position command for the first k moves (own move text).
+func (g *uciGame) positionCmd(k int, startpos bool) string {
+	s := "position fen " + g.fen
+	if startpos {
+		s = "position startpos"
+	}
+	if k > 0 {
+		var ts []string
+		for _, m := range g.moves[:k] {
+			ts = append(ts, moveText(m))
+		}
+		s += " moves " + strings.Join(ts, " ")
+	}
+	return s
+}
+
+func (e *env) c07uci() {
+	rng := e.c.Rng
+	starts := e.specialStarts(e.c.Pick(14, 60))
+	var games []*uciGame
+	for gi := 0; gi < e.c.Pick(20, 80); gi++ {
+		g := &uciGame{fen: starts[(gi+rng.IntN(2)*rng.IntN(len(starts)))%len(starts)], ponder: rng.IntN(2) == 0}
+		b, err := board.FromFEN(g.fen)
+		if err != nil {
+			continue
+		}
+		want := []string{"promo-q", "promo-r", "promo-b", "promo-n"}[gi%4] // every game prefers another promotion piece
+		plies := 4 + rng.IntN(14)
+		for p := 0; p < plies; p++ {
+			legal := implutil.Legal(b)
+			if len(legal) == 0 || b.FiftyCnt >= 100 || b.Threefold() >= 3 {
+				break
+			}
+			fen := b.FEN()
+			weights := make([]int, len(legal))
+			total := 0
+			for i, m := range legal {
+				w := 1
+				switch k := moveKind(fen, m); {
+				case strings.HasPrefix(k, want):
+					w = 400
+				case strings.HasPrefix(k, "promo"):
+					w = 25
+				case k == "ep":
+					w = 150
+				case k == "castle":
+					w = 60
+				case k == "double":
+					w = 8
+				}
+				weights[i] = w
+				total += w
+			}
+			x := rng.IntN(total)
+			i := 0
+			for x >= weights[i] {
+				x -= weights[i]
+				i++
+			}
+			g.moves = append(g.moves, legal[i])
+			g.kinds = append(g.kinds, moveKind(fen, legal[i]))
+			b.MakeMove(legal[i])
+		}
+		// half of the games are given from a position in the middle (its FEN carries clocks, castling
+		// rights and — right after a double push — the en-passant square), the rest of the moves as the list
+		first := len(g.moves) // the first promotion / castling / en-passant move stays in the list
+		for i := len(g.kinds) - 1; i >= 0; i-- {
+			if g.kinds[i] != "" && g.kinds[i] != "double" {
+				first = i
+			}
+		}
+		if first > 0 && rng.IntN(2) == 0 {
+			j := 1 + rng.IntN(first)
+			for i, k := range g.kinds[:first] {
+				if k == "double" && rng.IntN(2) == 0 {
+					j = i + 1
+					break
+				}
+			}
+			if mb, err := board.FromFEN(g.fen); err == nil {
+				for _, m := range g.moves[:j] {
+					mb.MakeMove(m)
+				}
+				g.fen, g.moves, g.kinds = mb.FEN(), g.moves[j:], g.kinds[j:]
+			}
+		}
+		// search points: after special moves (at once and a ply or two later) and at the end of the list
+		seen := map[int]bool{}
+		addPoint := func(k int) {
+			if k < 0 || k > len(g.moves) || seen[k] || len(g.points) >= 5 {
+				return
+			}
+			seen[k] = true
+			cmd := fmt.Sprintf("go depth %d", 2+rng.IntN(5))
+			if rng.IntN(2) == 0 {
+				cmd = fmt.Sprintf("go nodes %d", 200+rng.IntN(5000))
+			}
+			g.points = append(g.points, uciPoint{k, cmd})
+		}
+		for i, k := range g.kinds {
+			if strings.HasPrefix(k, "promo") || k == "ep" || k == "castle" {
+				addPoint(i + 1)
+				addPoint(i + 2 + rng.IntN(2))
+			}
+		}
+		addPoint(len(g.moves))
+		sort.Slice(g.points, func(a, b int) bool { return g.points[a].k < g.points[b].k })
+		games = append(games, g)
+	}
+	parallel(len(games), func(gi int) { e.runUCIGame(games[gi]) })
+	for _, g := range games {
+		e.r.Evaluations += g.evals
+		e.r.TracesValidated++
+		e.r.Count("uci-sessions", 1)
+		e.r.Count("uci-sessions:searches", g.evals)
+		e.r.Count("uci-sessions:variations-checked-by-lean-spec-from-the-replayed-root", g.lean)
+		for i, k := range g.kinds {
+			if k != "" && k != "double" && i < g.points[len(g.points)-1].k {
+				e.r.Count("uci-moves-in-position-commands:"+k, 1)
+			}
+		}
+		e.r.Count("uci-moves-in-position-commands", g.points[len(g.points)-1].k)
+		e.r.Nontrivial("ucigame|" + g.positionCmd(len(g.moves), false))
+		for _, f := range g.fails {
+			e.r.Fail(f)
+		}
+		if len(g.fails) > 0 {
+			e.r.Count("FAILED:uci-sessions", 1)
+		}
+	}
+	if len(games) > 0 {
+		e.r.Sample(map[string]any{"uci-session": games[0].positionCmd(len(games[0].moves), false)}, 6)
+	}
+}
+
+// leanReplay asks the rule book to replay words from fen; it returns the index of the first word
+// that is not legal (-1: all legal), and — when all are legal — the position reached (FEN text) and
+// its legal moves.
+func (e *env) leanReplay(fen string, words []move.Move, wantState bool) (bad int, reached string, legal []move.Move) {
+	reqs := []string{"fen " + fen}
+	for _, m := range words {
+		reqs = append(reqs, "speclegal "+strconv.Itoa(int(m)), "mkq "+strconv.Itoa(int(m)))
+	}
+	if wantState {
+		reqs = append(reqs, "fenout", "spec")
+	}
+	e.mu.Lock()
+	ans := e.bm.Batch(reqs)
+	e.mu.Unlock()
+	for i := range words {
+		if a := ans[1+2*i]; len(a) == 0 || a[0] != '1' {
+			return i, "", nil
+		}
+	}
+	if wantState {
+		reached = ans[len(ans)-2]
+		if s := ans[len(ans)-1]; s != "" {
+			for _, f := range strings.Split(s, ",") {
+				v, _ := strconv.Atoi(f)
+				legal = append(legal, move.Move(v))
+			}
+		}
+		sort.Slice(legal, func(a, b int) bool { return legal[a] < legal[b] })
+	}
+	return -1, reached, legal
+}
+
+func (e *env) runUCIGame(g *uciGame) {
+	s := newProcSession()
+	defer s.close()
+	var ops []string
+	send := func(c string) {
+		ops = append(ops, c)
+		s.send(c)
+	}
+	fail := func(kind, impl, spec, note string) {
+		g.fails = append(g.fails, common.Mismatch{Property: "C07", Kind: kind, Ops: tailOps(append([]string{}, ops...)), Impl: impl, Spec: spec, Note: note})
+	}
+	if g.ponder {
+		send("setoption name Ponder value true")
+	}
+	for _, pt := range g.points {
+		played := g.moves[:pt.k]
+		// the expected root, without the driver: rule book and board API replay the words
+		bad, leanFEN, leanLegal := e.leanReplay(g.fen, played, true)
+		if bad >= 0 {
+			panic(fmt.Sprintf("c07uci: generated game move #%d (%s) rejected by the rule book: %s", bad, moveText(played[bad]), g.positionCmd(pt.k, false)))
+		}
+		ab, err := board.FromFEN(g.fen)
+		if err != nil {
+			panic("c07uci: " + err.Error())
+		}
+		for _, m := range played {
+			ab.MakeMove(m)
+		}
+		rootFEN := ab.FEN()
+		apiLegal := implutil.Legal(ab)
+		rt := &root{name: "uci", fen: g.fen, key: rootFEN, legal: apiLegal, spec: leanLegal}
+		for _, m := range played {
+			rt.moves = append(rt.moves, moveText(m))
+		}
+		rt.final = len(apiLegal) == 0 || ab.FiftyCnt >= 100 || ab.Threefold() >= 3
+		send(g.positionCmd(pt.k, g.fen == startFEN && pt.k%2 == 0))
+		send("fen")
+		send(pt.cmd)
+		lines, best, ok := s.waitBest(60 * time.Second)
+		g.evals++
+		var infoText strings.Builder
+		drvFEN := ""
+		for _, l := range lines {
+			if !strings.HasPrefix(l, "info") && drvFEN == "" {
+				drvFEN = l
+			}
+		}
+		if !ok {
+			if drvFEN != "" && drvFEN != rootFEN {
+				fail("broken-correspondence", drvFEN, rootFEN+" (rule book: "+leanFEN+")", "the driver's board after the position command is not the position reached by the moves of the command")
+			}
+			time.Sleep(50 * time.Millisecond) // let the stderr of a dying process arrive
+			eb := s.errb.String()
+			if len(eb) > 600 {
+				eb = eb[:600]
+			}
+			fail("failing-input", "no bestmove (engine process ended or silent for 60 s); stderr: "+eb, "a bestmove that is legal in "+rootFEN, "UCI `go` on a root given by a position command with a move list was not answered")
+			return
+		}
+		drvFEN = ""
+		for _, l := range lines {
+			if strings.HasPrefix(l, "info") {
+				infoText.WriteString(l + "\n")
+			} else if drvFEN == "" {
+				drvFEN = l
+			}
+		}
+		if drvFEN != rootFEN {
+			fail("broken-correspondence", drvFEN, rootFEN+" (rule book: "+leanFEN+")", "the driver's board after the position command is not the position reached by the moves of the command")
+		}
+		if leanFEN != rootFEN {
+			fail("broken-correspondence", rootFEN, leanFEN, "board API and rule book disagree on the position reached by the moves (FEN text)")
+		}
+		// the C07 assertions on this search, relative to the expected root
+		oc := outcome{out: infoText.String(), nodes: 1 << 62}
+		bf := strings.Fields(best)
+		decodeOK := len(bf) >= 2
+		if decodeOK && bf[1] != "0000" {
+			oc.mv, decodeOK = moveWord(bf[1])
+		}
+		if decodeOK && len(bf) >= 4 && bf[2] == "ponder" && bf[3] != "0000" {
+			oc.pm, decodeOK = moveWord(bf[3])
+		}
+		if !decodeOK {
+			fail("failing-input", best, "", "unparsable bestmove line")
+			continue
+		}
+		j := &job{rt: rt, tt: 1 << 20, tag: "uci"}
+		before := len(g.fails)
+		e.checkC07Into(j, oc, append([]string{}, ops...), &g.fails)
+		if oc.mv != 0 && !contains(leanLegal, oc.mv) {
+			fail("failing-input", best, "rule-book legal moves: "+movesUCI(leanLegal), "bestmove is not legal in the position the command set up")
+		} else if oc.mv == 0 && !rt.final {
+			fail("failing-input", best, "", "null bestmove on a non-final root")
+		}
+		// every reported variation once more by the rule book, replayed from F through the game moves
+		if infos, err := parseInfos(oc.out); err == nil && len(g.fails) == before {
+			for _, in := range infos {
+				if !in.full || len(in.pv) == 0 {
+					continue
+				}
+				words := append([]move.Move{}, played...)
+				okText := true
+				for _, t := range in.pv {
+					w, ok := moveWord(t)
+					okText = okText && ok
+					words = append(words, w)
+				}
+				if !okText {
+					fail("failing-input", strings.Join(in.pv, " "), "", "malformed move text in a reported variation")
+					continue
+				}
+				g.lean++
+				if bad, _, _ := e.leanReplay(g.fen, words, false); bad >= 0 {
+					fail("failing-input", strings.Join(in.pv, " "), fmt.Sprintf("move #%d (%s) is not legal by the rule book", bad-len(played), in.pv[bad-len(played)]),
+						fmt.Sprintf("variation of depth %d is not a legal line from the root the position command set up (rule-book replay)", in.depth))
+				}
+			}
+		}
+	}
 }
 
 // ---------------------------------------------------------------------------------------------
@@ -2137,18 +2693,11 @@ func (e *env) c08() {
 	loadWG.Wait()
 	e.c08twins(classRoots)
 	e.c08sweep(classRoots)
-	t0 := time.Now()
-	lap := func(n string) { fmt.Fprintln(os.Stderr, "TIMING", n, time.Since(t0)); t0 = time.Now() }
 	e.c08lifecycle()
-	lap("lifecycle")
 	e.c08env()
-	lap("env")
 	e.c08uciLifecycle()
-	lap("ucilc")
 	e.c08processes()
-	lap("proc")
 	e.c08ponder()
-	lap("ponder")
 }
 
 // (a) determinism games
@@ -3303,7 +3852,7 @@ func (e *env) genLifecycles(n int, big bool) []*lifecycle {
 			}
 			for k := 2; k > 0; k-- {
 				o := searchOp(cur, rich[rng.IntN(len(rich))])
-				o.l = optVar{noCnt: o.l.noCnt, noOut: o.l.noOut}.on(limits{depth: MaxPlies, nodes: 45000 + rng.IntN(30000)})
+				o.l = optVar{noCnt: o.l.noCnt, noOut: o.l.noOut}.on(limits{depth: MaxPlies, nodes: 100000 + rng.IntN(50000)})
 				add(o)
 			}
 			if rng.IntN(3) == 0 {
@@ -4034,6 +4583,10 @@ func main() {
 	c := common.Parse()
 	if *childSession {
 		childMain()
+		return
+	}
+	if *childUCI {
+		uci.NewDriver(uci.WithInput(os.Stdin), uci.WithOutput(os.Stdout), uci.WithError(os.Stderr), uci.WithSearch(search.New(1<<20))).Run()
 		return
 	}
 	e := &env{c: c}
